@@ -62,6 +62,26 @@ Proof. destruct (close_conn_out n cid r) as [H|H]; rewrite H; repeat constructor
 Lemma close_conn_rq n cid r : rq (snd (close_conn n cid r)).
 Proof. destruct (close_conn_out n cid r) as [H|H]; rewrite H; repeat constructor. Qed.
 
+(* close_all (the election's removal of rival connections) only closes *)
+Definition only_close (outs : list output) : Prop :=
+  Forall (fun o => match o with OClose _ _ => True | _ => False end) outs.
+Lemma close_all_only_close cids : forall n r, only_close (snd (close_all n cids r)).
+Proof.
+  induction cids as [|k l IH]; intros n r; [constructor|]. cbn [close_all].
+  pose proof (close_conn_out n k r) as H1. destruct (close_conn n k r) as [n1 o1].
+  pose proof (IH n1 r) as H2. destruct (close_all n1 l r) as [n2 o2].
+  cbn [snd] in *. apply Forall_app. split; [|exact H2].
+  destruct H1 as [H1|H1]; rewrite H1; repeat constructor.
+Qed.
+Lemma only_close_nq outs : only_close outs -> nq outs.
+Proof. apply Forall_impl. intros [] H; try contradiction H; reflexivity. Qed.
+Lemma only_close_nd outs : only_close outs -> nd outs.
+Proof. apply Forall_impl. intros [] H; try contradiction H; reflexivity. Qed.
+Lemma close_all_nq n cids r : nq (snd (close_all n cids r)).
+Proof. apply only_close_nq, close_all_only_close. Qed.
+Lemma close_all_nd n cids r : nd (snd (close_all n cids r)).
+Proof. apply only_close_nd, close_all_only_close. Qed.
+
 (* ====================================================================== *)
 (* receive_message in named pieces                                         *)
 (* ====================================================================== *)
@@ -134,13 +154,14 @@ Proof. intros H. unfold rm_dup. rewrite H. destruct (m_origin m); reflexivity. Q
 (* the shape of what one received message produces                          *)
 (* ====================================================================== *)
 Inductive rm_out (cid : nat) (m : msg) : list output -> Prop :=
-| RO_answer code f : m_req m = true -> rm_out cid m [OQueue cid (answer_of m (Some code) f)]
+| RO_answer pre code f : m_req m = true -> nq pre -> nd pre ->
+    rm_out cid m (pre ++ [OQueue cid (answer_of m (Some code) f)])
 | RO_deliver i k : m_req m = true -> m_cmd m = App k -> rm_out cid m [ODeliver i m]
 | RO_other outs : nq outs -> nd outs -> rm_out cid m outs.
 
 Lemma rm_out_send n cid m code f :
   m_req m = true -> rm_out cid m (snd (send_message n cid (answer_of m (Some code) f))).
-Proof. intros H. rewrite send_message_out. constructor. exact H. Qed.
+Proof. intros H. rewrite send_message_out. apply (RO_answer cid m [] code f H nq_nil nd_nil). Qed.
 Lemma rm_out_nil cid m : rm_out cid m [].
 Proof. apply RO_other; constructor. Qed.
 Lemma rm_out_close n cid m c r : rm_out cid m (snd (close_conn n c r)).
@@ -152,18 +173,28 @@ Proof.
   destruct (pres_get (m_origin m)) as [host|]; [|apply rm_out_nil].
   destruct (get_peer n host) as [p|]; [|apply rm_out_send; exact Hreq].
   cbv zeta.
-  destruct (inter_z _ (m_auth m)); destruct (inter_z _ (m_acct m));
-    destruct (mem_z APP_RELAY (m_auth m) || mem_z APP_RELAY (m_acct m));
-    apply rm_out_send; exact Hreq.
+  destruct (election_rivals _ cid host) as [|r0 rs];
+    [|destruct (String.ltb host _); [|apply rm_out_send; exact Hreq]];
+    (match goal with |- context [close_all ?a ?b ?c] =>
+       pose proof (close_all_nq a b c) as Hq; pose proof (close_all_nd a b c) as Hd;
+       destruct (close_all a b c) as [n1 oel] end;
+     cbn [snd] in Hq, Hd;
+     destruct (inter_z _ (m_auth m)); destruct (inter_z _ (m_acct m));
+       destruct (mem_z APP_RELAY (m_auth m) || mem_z APP_RELAY (m_acct m));
+       rewrite send_message_pair; cbn [snd]; apply RO_answer; assumption).
 Qed.
 
 Lemma recv_cea_shape n cid m : rm_out cid m (snd (recv_cea n cid m)).
 Proof.
   unfold recv_cea.
+  destruct (get_conn n cid) as [c0|]; [|apply rm_out_nil].
+  destruct (negb (cstate_eqb (c_state c0) SConnected)); [apply rm_out_nil|].
   destruct (m_result m) as [| |z]; try apply rm_out_close.
   destruct z as [|p|p]; try apply rm_out_close.
   repeat (destruct p as [p|p|]; try apply rm_out_close).
-  cbv zeta. destruct (pres_get (m_origin m)); apply rm_out_nil.
+  destruct (pres_get (m_origin m)) as [host|]; [|apply rm_out_nil].
+  destruct (negb (String.eqb (c_node_name c0) "") && negb (String.eqb host (c_node_name c0)));
+    [apply rm_out_close|apply rm_out_nil].
 Qed.
 
 Lemma recv_dpa_shape n cid m : rm_out cid m (snd (recv_dpa n cid)).
@@ -234,9 +265,12 @@ Theorem C07_dispatch_answers n cid m n' outs :
   /\ (List.length (List.filter is_queue outs) <= 1)%nat.
 Proof.
   intros Hd. pose proof (dispatch_shape n cid m) as Hs. rewrite Hd in Hs. cbn [snd] in Hs.
-  inversion Hs as [code f Hreq Ho | i k Hreq Hcmd Ho | outs' Hnq Hnd Ho]; subst.
-  - split; [|cbn; lia].
-    intros cid' a [Hin|[]]. inversion Hin; subst. cbn. repeat split; try reflexivity. exact Hreq.
+  inversion Hs as [pre code f Hreq Hpq Hpd Ho | i k Hreq Hcmd Ho | outs' Hnq Hnd Ho]; subst.
+  - split.
+    + intros cid' a Hin. apply List.in_app_or in Hin. destruct Hin as [Hin|[Hin|[]]].
+      * exfalso. exact (nq_not_in _ Hpq _ _ Hin).
+      * inversion Hin; subst. cbn. repeat split; try reflexivity. exact Hreq.
+    + rewrite List.filter_app, (nq_filter _ Hpq). cbn. lia.
   - split; [|cbn; lia].
     intros cid' a [Hin|[]]. discriminate Hin.
   - split.
@@ -271,8 +305,9 @@ Theorem C07_delivered_not_answered n cid m i m' :
 Proof.
   intros Hdel cid' a Hin.
   pose proof (dispatch_shape n cid m) as Hs.
-  inversion Hs as [code f Hreq Ho | j k Hreq Hcmd Ho | outs' Hnq Hnd Ho].
-  - rewrite <- Ho in Hdel. destruct Hdel as [Hd|[]]. discriminate Hd.
+  inversion Hs as [pre code f Hreq Hpq Hpd Ho | j k Hreq Hcmd Ho | outs' Hnq Hnd Ho].
+  - rewrite <- Ho in Hdel. apply List.in_app_or in Hdel. destruct Hdel as [Hd|[Hd|[]]]; [|discriminate Hd].
+    exact (nd_not_in _ Hpd _ _ Hd).
   - rewrite <- Ho in Hin. destruct Hin as [Hd|[]]. discriminate Hd.
   - exact (nq_not_in _ Hnq _ _ Hin).
 Qed.
@@ -778,8 +813,9 @@ Theorem C08_base_never_delivered n cid m :
 Proof.
   intros Hcmd i m' Hin.
   pose proof (dispatch_shape n cid m) as Hs.
-  inversion Hs as [code f Hreq Ho | j k Hreq Hk Ho | outs' Hnq Hnd Ho].
-  - rewrite <- Ho in Hin. destruct Hin as [Hd|[]]. discriminate Hd.
+  inversion Hs as [pre code f Hreq Hpq Hpd Ho | j k Hreq Hk Ho | outs' Hnq Hnd Ho].
+  - rewrite <- Ho in Hin. apply List.in_app_or in Hin. destruct Hin as [Hd|[Hd|[]]]; [|discriminate Hd].
+    exact (nd_not_in _ Hpd _ _ Hd).
   - destruct Hcmd as [H|[H|H]]; congruence.
   - exact (nd_not_in _ Hnd _ _ Hin).
 Qed.
@@ -922,6 +958,12 @@ Proof. unfold clear_ok. rewrite send_message_out. cbn [List.map out_clear_t]. ap
 Lemma clear_ok_nil n : clear_ok (n, []) (n, []).
 Proof. reflexivity. Qed.
 
+Lemma only_close_clear outs : only_close outs -> List.map out_clear_t outs = outs.
+Proof.
+  induction 1 as [|o l Ho _ IH]; [reflexivity|]. cbn [List.map]. rewrite IH.
+  destruct o; try contradiction Ho. reflexivity.
+Qed.
+
 Lemma recv_cer_clear_ok n cid m : clear_ok (recv_cer n cid m) (recv_cer n cid (clear_t m)).
 Proof.
   change (recv_cer n cid (clear_t m)) with (recv_cer n cid m).
@@ -929,8 +971,16 @@ Proof.
   destruct (pres_get (m_origin m)) as [host|]; [|apply clear_ok_nil].
   destruct (get_peer n host) as [p|]; [|apply clear_ok_send].
   cbv zeta.
-  destruct (inter_z _ (m_auth m)); destruct (inter_z _ (m_acct m));
-    destruct (mem_z APP_RELAY (m_auth m) || mem_z APP_RELAY (m_acct m)); apply clear_ok_send.
+  destruct (election_rivals _ cid host) as [|r0 rs];
+    [|destruct (String.ltb host _); [|apply clear_ok_send]];
+    (match goal with |- context [close_all ?a ?b ?c] =>
+       pose proof (only_close_clear _ (close_all_only_close b a c)) as Hc;
+       destruct (close_all a b c) as [n1 oel] end;
+     cbn [snd] in Hc;
+     destruct (inter_z _ (m_auth m)); destruct (inter_z _ (m_acct m));
+       destruct (mem_z APP_RELAY (m_auth m) || mem_z APP_RELAY (m_acct m));
+       rewrite send_message_pair; unfold clear_ok; cbn [fst snd];
+       rewrite List.map_app, Hc; reflexivity).
 Qed.
 
 Lemma recv_app_request_clear_ok n cid m :
